@@ -225,7 +225,27 @@ class Builder(Family):
         s3 = CScript(gen())
         if bytes(s3) != want:
             raise Viol('CScript built from a generator that constructs other scripts while being consumed differs', want[:200], bytes(s3)[:200])
+        # one caller-owned list object for the whole process, refilled / edited in place between constructions
+        lst = _REUSED_LIST
+        lst[:] = libtoks
+        s6 = CScript(lst)
+        if bytes(s6) != want or lst != libtoks:
+            raise Viol('CScript built from a list object that was used for earlier constructions differs (or the list was changed)', want[:200], bytes(s6)[:200])
+        lst.append(lib_token(('op', 0xac)))
+        s7 = CScript(lst)
+        if bytes(s7) != want + b'\xac':
+            raise Viol('CScript built from the same list after appending a token to it differs', (want + b'\xac')[:200], bytes(s7)[:200])
+        if libtoks:
+            lst.pop()
+            lst[0] = lib_token(('op', 0x51))
+            s8 = CScript(lst)
+            w8 = b'\x51' + b''.join(RS.build_token(t) for t in toks[1:])
+            if bytes(s8) != w8:
+                raise Viol('CScript built from the same list after replacing its first token differs', w8[:200], bytes(s8)[:200])
         return 'ok', any(t[0] != 'op' for t in toks)
+
+
+_REUSED_LIST = []
 
 
 # ------------------------------------------------------------------------------------------------------------
